@@ -136,6 +136,15 @@ pub fn fuzz_seeds(dir: &Path, seed: u64, n: u64) -> i32 {
         d
     };
     let (d1, d6, d7) = (mk("fz_c01"), mk("fz_c06"), mk("fz_c07"));
+    // fz_struct: [family][case index][tape]: pseudo-random tapes of several lengths for every family
+    let ds = mk("fz_struct");
+    for i in 0..n.max(crate::fuzzing::STRUCT_FAMILIES.len() as u64 * 4) {
+        let mut r = Rng::new(crate::rng::mix(seed ^ 0x57A7, i));
+        let mut v = vec![(i % 256) as u8, r.u8()];
+        let l = [64usize, 300, 1200, 4000][(i / 256) as usize % 4];
+        v.extend(r.bytes(l));
+        let _ = std::fs::write(ds.join(format!("s{}", i)), &v);
+    }
     let reg_len = crate::monitors::c01::registry().len() as u64;
     for i in 0..n {
         let mut r = Rng::new(crate::rng::mix(seed ^ 0xF022, i));
